@@ -831,6 +831,128 @@ def _runner_class_lifecycle(ctx, m, f, pc, var):
         ctx.ok(rid, pc, f"{c.name}: stop() kills (if running) and waits, __exit__ -> stop, used as context manager at {users} site(s), check_poll raises on non-zero return code")
 
 
+def _mod_guards(cfg, fl, n):
+    """Guards dominating node n that test `<counter> % <period>`: [(mod BinOp, means_zero, branch)]."""
+    out = []
+    for e, t, bn in cfg.guards(n):
+        mods = [x for x in ast.walk(e) if isinstance(x, ast.BinOp) and isinstance(x.op, ast.Mod)]
+        mods += [x for x in ast.walk(e) if isinstance(x, ast.Call) and last_name(x) in ("mod", "remainder", "fmod") and len(x.args) == 2]
+        if not mods:
+            continue
+        mo = mods[0]
+        zero = None
+        if isinstance(e, ast.Compare) and len(e.ops) == 1 and e.left is mo and isinstance(e.comparators[0], ast.Constant) and e.comparators[0].value == 0:
+            if isinstance(e.ops[0], ast.Eq):
+                zero = t
+            elif isinstance(e.ops[0], (ast.NotEq, ast.Gt)):
+                zero = not t
+        elif e is mo:
+            zero = not t
+        out.append((mo, zero, bn))
+    return out
+
+
+def _counter_origin(f, fl, cfg, e, at):
+    """('zero', name) when e is a loop counter whose first value is 0; ('offset', text) otherwise."""
+    if isinstance(e, ast.Name):
+        d, _ = deref(fl, e, at)
+        if d is not e and not isinstance(d, ast.Name):
+            e = d
+    if not isinstance(e, ast.Name):
+        return "offset", ast.unparse(e)
+    for lp in [x for x in walk_local(f) if isinstance(x, ast.For)]:
+        tg = lp.target
+        it = lp.iter
+        if isinstance(tg, ast.Name) and tg.id == e.id and isinstance(it, ast.Call) and last_name(it) == "range":
+            if len(it.args) == 1 or (isinstance(it.args[0], ast.Constant) and it.args[0].value == 0 and len(it.args) == 2):
+                return "zero", e.id
+            return "offset", f"{e.id} from {ast.unparse(it)}"
+        if isinstance(tg, ast.Tuple) and tg.elts and isinstance(tg.elts[0], ast.Name) and tg.elts[0].id == e.id and isinstance(it, ast.Call) and last_name(it) == "enumerate":
+            st = kwarg(it, "start", 1)
+            if st is None or (isinstance(st, ast.Constant) and st.value == 0):
+                return "zero", e.id
+            return "offset", f"{e.id} from {ast.unparse(it)}"
+    return "unknown", e.id
+
+
+def frame_cadence(ctx, rid, what=""):
+    """In-process engines (the MD loop runs inside _propagate_from): the test that selects the items
+    stored as frames, `<counter> % subcycles == 0`, is on the bare item counter starting at 0 - item 0,
+    the phase point the propagation was started from, is frame 0 for every value of subcycles."""
+    n = 0
+    for m, cname, c, f in engines(ctx.tree):
+        if m.rel not in ENGINE_FILES:
+            continue
+        fl = flow_of(f)
+        cfg = fl.cfg
+        for call in _add_calls(f):
+            an = cfg.node_of(call)
+            for mo, zero, bn in _mod_guards(cfg, fl, an):
+                n += 1
+                left = mo.left if isinstance(mo, ast.BinOp) else mo.args[0]
+                if zero is not True:
+                    ctx.bad(rid, mo, f"{cname}._propagate_from stores a frame when `{short(mo, 40)}` is not zero (or the test has a shape the analysis cannot read): item 0, the starting phase point, is not frame 0{what}", construct=f"{cname}: storing test on {short(mo, 40)}")
+                    continue
+                kind, txt = _counter_origin(f, fl, cfg, left, an)
+                if kind == "zero":
+                    ctx.ok(rid, mo, f"{cname}: frames are the items with `{short(mo, 40)} == 0`, counter `{txt}` starts at 0 - the starting phase point is frame 0 for every subcycles")
+                elif kind == "offset":
+                    ctx.bad(rid, mo, f"{cname}._propagate_from selects the stored items by `{short(mo, 40)} == 0` with `{txt}` instead of the bare item counter: for subcycles > 1 item 0 - the phase point the propagation starts from - is not stored, the first frame is a state subcycles-1 steps later{what}", construct=f"{cname}: storing test on {short(left, 40)}")
+                else:
+                    raise AnalysisError(f"{rid}: {cname}: cannot tell where the counter `{txt}` of the storing test starts")
+    if n == 0:
+        raise AnalysisError(f"{rid}: no in-process engine with a `counter % subcycles` storing test found")
+
+
+def energies_per_frame(ctx, rid, what=""):
+    """In-process engines: the lists handed to path.update_energies get one entry per stored frame -
+    every append to them is controlled by exactly the storing test that controls add_to_path
+    (update_energies assigns entry k to frame k)."""
+    n = 0
+    for m, cname, c, f in engines(ctx.tree):
+        if m.rel not in ENGINE_FILES:
+            continue
+        fl = flow_of(f)
+        cfg = fl.cfg
+        adds = _add_calls(f)
+        ups = [x for x in walk_local(f) if isinstance(x, ast.Call) and last_name(x) == "update_energies"]
+        if not adds or not ups:
+            continue
+        an = cfg.node_of(adds[0])
+        mg = _mod_guards(cfg, fl, an)
+        if not mg:
+            continue
+        roots = set()
+        for u in ups:
+            for a in u.args:
+                roots |= {x.id for x in ast.walk(a) if isinstance(x, ast.Name)}
+                if isinstance(a, ast.Name):
+                    for kind, node, at, extra in fl.sources(a, cfg.node_of(u)):
+                        if kind == "expr":
+                            roots |= {x.id for x in ast.walk(node) if isinstance(x, ast.Name)}
+        roots -= {"np", "self", "numpy"}
+        aguards = {(ast.unparse(e), t) for e, t, bn in cfg.guards(an)}
+        mtxt = {ast.unparse(mo) for mo, z, bn in mg}
+        for ap in [x for x in walk_local(f) if isinstance(x, ast.Call) and isinstance(x.func, ast.Attribute) and x.func.attr in ("append", "extend")]:
+            r = ap.func.value
+            while isinstance(r, (ast.Subscript, ast.Attribute)):
+                r = r.value
+            if not (isinstance(r, ast.Name) and r.id in roots):
+                continue
+            n += 1
+            g = {(ast.unparse(e), t) for e, t, bn in cfg.guards(cfg.node_of(ap))}
+            under = any(any(mt in ge for mt in mtxt) for ge, t in g)
+            extra = {x for x in g - aguards}
+            if not under:
+                ctx.bad(rid, ap, f"{cname}._propagate_from records an energy (`{short(ap, 50)}`) for every MD step, not under the storing test `{sorted(mtxt)[0]} == 0` that selects the frames: update_energies gives entry k to frame k, so with subcycles > 1 every frame after the first carries the energy of another configuration{what}", construct=f"{cname}: energy appended outside the storing test")
+            elif extra:
+                ctx.bad(rid, ap, f"{cname}._propagate_from records an energy (`{short(ap, 50)}`) under a condition that does not control the frames ({sorted(extra)[0][0]}): energies and frames get out of step{what}", construct=f"{cname}: energy appended under an extra condition")
+            else:
+                ctx.ok(rid, ap, f"{cname}: `{short(ap, 40)}` is controlled by the storing test of the frames")
+    if n == 0:
+        raise AnalysisError(f"{rid}: no energy list filled inside an in-process engine loop found")
+
+
 def r125(ctx, m, cname, f, info):
     rid = "R-12.5"
     fl = flow_of(f)
@@ -1447,6 +1569,10 @@ def run(ctx):
     ctx.rule("R-12.7", "every sleeping wait loop observes the external process", floor=6)
     ctx.rule("R-12.8", "frames handed to the engines by the on-the-fly readers do not share arrays (a frame's box and coordinates are its own)", floor=3)
     ctx.rule("R-12.15", "the configuration an engine starts from after a velocity reversal is the phase point itself: _reverse_velocities writes positions, box and identities exactly as read (shared with C19 R-19.5)", floor=5)
+    ctx.rule("R-12.23", "in-process engines: the item the loop starts with (the given phase point) is frame 0 for every value of subcycles - the storing test is `counter % subcycles == 0` on the bare item counter starting at 0", floor=2)
+    ctx.attempt(frame_cadence, ctx, "R-12.23")
+    ctx.rule("R-12.24", "in-process engines: one energy entry per stored frame - every append to the lists handed to update_energies is controlled by the storing test of the frames", floor=2)
+    ctx.attempt(energies_per_frame, ctx, "R-12.24")
     ctx.rule("R-12.22", "a CP2K / LAMMPS frame handed to the engine is complete: every parse of a line of the growing file is dominated by a completeness guard whose failing edge returns (shared with C13 R-13.1 / R-13.2)", floor=6)
     from . import c13 as _c13b
     from .shared import RuleProxy as _RP12n
@@ -1508,6 +1634,11 @@ def run(ctx):
 
 
 VARIANTS = [
+    B("c12-turtle-frames-at-the-end-of-each-block", TURTLE, "            if (i) % (self.subcycles) == 0:", "            if (i + 1) % (self.subcycles) == 0:", "R-12.23", control=True, why="seeded C09_n"),
+    B("c12-ase-frames-counted-from-one", ASE, "        for i in range(self.subcycles * path.maxlen):", "        for i in range(1, self.subcycles * path.maxlen + 1):", "R-12.23"),
+    K("c12-keep-turtle-storing-test-negated", TURTLE, "            if (i) % (self.subcycles) == 0:", "            if not i % self.subcycles != 0:"),
+    B("c12-ase-energies-recorded-every-md-step", ASE, "            if (i) % (self.subcycles) == 0:\n                ekin.append(atoms.get_kinetic_energy())\n                vpot.append(self.calc.results[\"energy\"])\n", "            ekin.append(atoms.get_kinetic_energy())\n            vpot.append(energy)\n            if (i) % (self.subcycles) == 0:\n", "R-12.24", control=True, why="seeded C11_n"),
+    K("c12-keep-ase-energy-from-the-local", ASE, "                vpot.append(self.calc.results[\"energy\"])\n", "                vpot.append(energy)\n"),
     B("c12-xyz-line-accepted-by-column-count-alone", ENGPARTS, 'if len(spl) != 4 or line[-1] != "\\n":', 'if len(spl) != 4 and line[-1] != "\\n":', "R-12.22", control=True, why="seeded C12_n"),
     B("c12-lammps-stopped-through-popen-object", LAMMPS, "                                os.killpg(os.getpgid(exe.pid), signal.SIGTERM)", "                                exe.terminate()", "R-12.21", control=True, why="seeded C12_m"),
     B("c12-gromacs-remove-list-before-names", GROMACS, '        for key in ("cpt", "edr", "log", "trr"):\n            out_files[key] = f"{name}.{key}"\n        # Remove some of these files if present (e.g. left over from a\n        # crashed simulation). This is so that GromacsRunner will not\n        # start reading a .trr left from a previous simulation.\n\n        remove = [val for key, val in out_files.items() if key != "tpr"]\n', '        remove = [val for key, val in out_files.items() if key != "tpr"]\n        for key in ("cpt", "edr", "log", "trr"):\n            out_files[key] = f"{name}.{key}"\n', "R-12.20", control=True, why="seeded C12_k"),
